@@ -109,7 +109,8 @@ CHECKS = [
              'grids with dt not dividing the interval: TDVP_out bookkeeping (ti, tf, dt, minimal steps), sector, canonical form, and the dense state '
              'equals expm(-u t H) psi0 to 1e-9 whenever every bond has a complete Schmidt basis on one side (the case in which the splitting '
              'integrator is exact); otherwise the deviation must shrink at the stated order. Small-D real-time runs conserve norm and energy to 1e-8. '
-             'Time-dependent H(t): error against a fine Magnus reference shrinks by >= 2^(p-1/2) per halving of dt.',
+             'Time-dependent H(t): error against a fine Magnus reference shrinks by >= 2^(p-1/2) per halving of the actual step, refined through dt '
+             '(also dt not dividing the interval) or through the snapshot grid with dt larger than the spacing; non-convergence is reported.',
      'note': 'trusted: dense H from vlib/jw.py, scipy expm; the exactness clause is restricted by a computed completeness predicate because the '
              'projector-splitting integrator has an O(dt^p) splitting error on symmetric sectors whose bonds are left-complete in one charge block and '
              'right-complete in another; order clause is asymptotic and probed at 2-3 step sizes inside an error window'},
@@ -129,7 +130,7 @@ CHECKS = [
      'technique': 'Hypothesis-generated circuit states, environments and measurement requests compared with expectation values on the dense Jordan-Wigner state; generated PEPS/bond/cluster for metric validity; generated evolution steps against dense evolution',
      'text': 'States from generated shallow circuits on open lattices (chains, 2x2, 2x3, 3x2; 3x3 thorough), pure and purified, every family x symmetry. '
              'EnvBoundaryMPS (non-binding D_total, discarded weights < 1e-12, every setup), EnvCTM(eye/dl) after max(Nx,Ny)+1 outward expansions, EnvBP on '
-             'chains: measure_1site, measure_nn, measure_2site (pairs/dirn variants), measure_nsite, measure_2x2, measure_line of identity, neutral and '
+             'chains: measure_1site, measure_nn, measure_2site (pairs/dirn variants, full lattice and windows), measure_nsite, measure_2x2, measure_line of identity, neutral and '
              'fermionic charged operators == <psi|O|psi>/<psi|psi> (1e-8). EnvNTU.bond_metric for all six cluster types on finite/infinite/checkerboard/'
              'cylinder PEPS after the QR reduction of truncate_: Hermitian and PSD to 1e-9. evolution_step_ (NTU variants, BP; methods mpo/NN; local, '
              'nn, path and MPO gates) with non-binding truncation == dense evolution up to a scalar, truncation_error <= 1e-6, metric diagnostics clean.',
@@ -182,14 +183,14 @@ CHECKS = [
     {'id': 'C18',
      'technique': 'Hypothesis-generated linear maps (random zero-charge tensors acting on symmetric vectors), start vectors and solver options; results compared with scipy.linalg.expm / numpy eigensolvers / dense residuals on the sector matrix of the map',
      'text': 'Maps f(x) = M.x (+ shift) for random (non-)Hermitian M on rank 1-3 vectors of every symmetry and charge (sector dimension up to ~100), '
-             'random / eigenvector / two-eigenvector / single-block / zero start vectors. expmv: |w - expm(tF)v| <= (200 tol + 1e-11) x amplification for '
-             'real, imaginary and complex t with |t| ||F|| from 0 to 40, tol 1e-5..1e-12, ncv 1..40, both hermitian flags, normalize on/off, info fields '
+             'random / (exactly and numerically) invariant / single-block / zero start vectors. expmv: |w - expm(tF)v| <= (10 tol + 1e-11) x amplification for '
+             'real, imaginary and complex t with |t| ||F|| from 0 to 250, tol 1e-5..1e-12, ncv 1..40, both hermitian flags, normalize on/off, info fields '
              '(krylov_steps == calls of f). eigs: exact residual / selection / ordering once ncv reaches the reachable dimension, Rayleigh identity, '
              'spectral bounds, interlacing and variational bound otherwise (Hermitian). lin_solver: reported == true residual, <= initial residual, '
              'solved when the Krylov space is exhausted. Results stay in the sector.',
      'note': 'trusted: dense matrix of the map from M.to_numpy(); exactness clauses of eigs are applied only while a NumPy simulation of the documented '
              'algorithm keeps the Krylov basis orthonormal to 1e-10 (classical Gram-Schmidt loses orthogonality like eps*cond^2); expmv cases with '
-             'amplification > 1e4 are skipped; svds is outside the property'},
+             'amplification > 1e4 are skipped; hermitian=True with |t| ||F|| >= 100 is excluded (open known finding, reproduced from a committed replay); svds is outside the property'},
     {'id': 'C19',
      'technique': 'exhaustive enumeration of the group law against an independent table + Hypothesis search over Leg arguments',
      'text': 'Every fuse()/add_charges() row in the stated charge box (complete for Z2/Z3 factors, |t|<=B for U(1)) for '
